@@ -19,16 +19,28 @@ import (
 )
 
 const (
-	// regTimeout / reqTimeout are the process-wide registration and request timeouts
-	// (DESIGN.md C17: 200 ms, far above the healthy latency of a registration, < 5 ms).
-	regTimeout = 200 * time.Millisecond
-	reqTimeout = 200 * time.Millisecond
+	// defaultTimeout is the registration and request timeout of ordinary cases (DESIGN.md
+	// C17: 200 ms, far above the healthy latency of a registration, < 5 ms).
+	defaultTimeout = 200 * time.Millisecond
 	// slack is the flat allowance of the property's time clause.
 	slack = 2 * time.Second
 )
 
+// regTimeout / reqTimeout are the registration and request timeouts in force (process-wide
+// in nri; run is never called concurrently). Cases with many pending peers shorten them
+// (C17Case.TimeoutMs) so that b x timeout stays affordable; setTimeouts switches.
+var (
+	regTimeout = defaultTimeout
+	reqTimeout = defaultTimeout
+)
+
+func setTimeouts(d time.Duration) {
+	regTimeout, reqTimeout = d, d
+	adaptation.SetPluginRegistrationTimeout(d)
+	adaptation.SetPluginRequestTimeout(d)
+}
+
 func TestMain(m *testing.M) {
-	adaptation.SetPluginRegistrationTimeout(regTimeout)
-	adaptation.SetPluginRequestTimeout(reqTimeout)
+	setTimeouts(defaultTimeout)
 	os.Exit(m.Run())
 }
